@@ -6,7 +6,7 @@ Read from the Rust text:
     same text), big-endian byte order of all three lanes;
   * range_pruner.rs: MATCH_THRESHOLD (as an exact fraction), MIN_ZONES_FOR_THRESHOLD and the two
     comparison operators of the ">90 % of >10 zones => None" rule;
-  * zone_surf_filter.rs: sort + dedup of the per-zone keys, keys taken from the first event of a zone.
+  * zone_surf_filter.rs: sort + dedup of the per-zone keys, whether the field set of a zone comes from its first event only.
 """
 import re
 from fractions import Fraction
@@ -61,7 +61,13 @@ def gen(out):
     rel = "src/engine/core/filter/zone_surf_filter.rs"
     src = read(rel)
     need(src, rel, r"values\.sort\(\);\s*values\.dedup\(\);\s*let trie = SurfTrie::build_from_sorted\(&values\);", "sort + dedup + build per zone")
-    need(src, rel, r"if let Some\(event\) = zp\.events\.get\(0\) \{\s*dynamic_keys\.extend\(event\.payload\.keys\(\)\.cloned\(\)\);", "field set taken from the first event of the zone")
+    # which events of a zone contribute the field set: only the first (pinned tree) or all of them
+    first = re.search(r"if let Some\(event\) = zp\.events\.get\(0\) \{\s*dynamic_keys\.extend\(event\.payload\.keys\(\)\.cloned\(\)\);", src)
+    every = re.search(r"for event in (?:&zp\.events|zp\.events\.iter\(\)) \{\s*dynamic_keys\.extend\(event\.payload\.keys\(\)\.cloned\(\)\);", src)
+    if bool(first) == bool(every):
+        raise Missing(f"{rel}: dynamic_keys taken from the first event or from every event of the zone")
+    out.append(f"Definition surf_keys_from_first_event : bool := {'true' if first else 'false'}.")
+    need(src, rel, r"for key in dynamic_keys \{\s*if !allowed_fields\.contains\(&key\) \{\s*continue;\s*\}\s*if !is_field_numeric_consistent\(zone_plans, &key\) \{\s*continue;\s*\}", "per key: allowed, then numeric-consistency gate")
     need(src, rel, r"entries\.sort_by_key\(\|e\| e\.zone_id\);", "entries sorted by zone id")
     need(src, rel, r"Some\(k\) if k\.as_slice\(\) > lower => \(true, stats\)", "exclusive lower bound test")
     need(src, rel, r"Some\(k\) if k\.as_slice\(\) < upper => \(true, stats\)", "exclusive upper bound test")
